@@ -10,6 +10,13 @@ from pyvc.contract import Contract, register, lemma
 from pyvc.values import Struct, Sym, term, wrap, zand, zor, znot, zeq, Unsupported
 import contracts.c06 as c06        # noqa: F401  sort_idx_canonical (props C06, C19)
 import contracts.registry as registry        # noqa: F401  index registry (props C08, C19)
+import contracts.c04 as c04        # noqa: F401  IntermediateStates.precursor / s_root / norm factor (index hygiene)
+
+# wave functions that meet in one product never share contracted indices: the precursor's cache of
+# ground state wave functions (which orders may be reused inside one projector term) and the products
+# inside s_root carry `index-hygiene` obligations - listed under C19 as well
+c04.Precursor.props = c04.Precursor.props + ["C19"]
+c04.SRoot.props = c04.SRoot.props + ["C19"]
 
 ASSUMPTIONS = c06.ASSUMPTIONS + [
     "tensor names and configured base names are arbitrary strings (z3 string theory, ASCII digits for str.isnumeric); the configured base names are non empty",
